@@ -12,7 +12,10 @@ class StackFrame:
         self.return_addr = None
 
     def get_variable(self, identifier):
-        for place in (self.constants, self.vars, self.params, self.globals):
+        # The parameters become visible as self.vars when the routine is
+        # entered. Until then, while the arguments of a call are still being
+        # evaluated, they must not hide the caller's variables.
+        for place in (self.constants, self.vars, self.globals):
             if identifier in place:
                 return place[identifier]
         return None
